@@ -2459,8 +2459,18 @@ class Parameters:
         # would need to handle the params() cache as well
         # (which is tricky but important for startup speed).
         cls = self_.cls
+        had = param_name in cls.__dict__
+        previous = cls.__dict__.get(param_name)
         type.__setattr__(cls, param_name, param_obj)
-        ParameterizedMetaclass._initialize_parameter(cls, param_name, param_obj)
+        try:
+            ParameterizedMetaclass._initialize_parameter(cls, param_name, param_obj)
+        except Exception:
+            # leave the class as it was: do not keep a Parameter that failed its merge
+            if had:
+                type.__setattr__(cls, param_name, previous)
+            else:
+                type.__delattr__(cls, param_name)
+            raise
         # delete cached params() of the class and its subclasses
         for kls in descendents(cls):
             kls._param__private.params.clear()
